@@ -1195,6 +1195,22 @@ impl World {
             for e in &dp_events {
                 eprintln!("{:>12.3}us   st{} dp-event {:?}", t as f64 / self.cfg.baud as f64, i, e);
             }
+            if pre.las != post.las || pre.ns != post.ns || pre.ps != post.ps || pre.in_ring != post.in_ring {
+                let set = |m: u128| (0..128).filter(|a| m >> a & 1 == 1).map(|a| a.to_string()).collect::<Vec<_>>().join(",");
+                eprintln!(
+                    "{:>12.3}us   st{} ring-view LAS {{{}}} -> {{{}}} NS {}->{} PS {}->{} in_ring {}->{}",
+                    t as f64 / self.cfg.baud as f64,
+                    i,
+                    set(pre.las),
+                    set(post.las),
+                    pre.ns,
+                    post.ns,
+                    pre.ps,
+                    post.ps,
+                    pre.in_ring,
+                    post.in_ring
+                );
+            }
         }
         let info = PollInfo {
             st: i,
